@@ -1,0 +1,192 @@
+//go:build verif
+
+package influxql
+
+// C04 / C07 / C01 base layer: the 3-slot token ring and the parser's scan
+// functions. Depth contracts make "pushback never exceeds the ring" an
+// obligation at every Unscan call site, for all inputs.
+
+//@ func (*bufScanner).curr
+//@   props C04 C07 C01
+//@   safety C04
+//@   modifies nothing
+//@   requires s != nil && 0 <= s.i && s.i < 3 && 0 <= s.n && s.n <= 3
+//@   ensures tok == s.buf[(s.i-s.n+3)%3].tok && lit == s.buf[(s.i-s.n+3)%3].lit && pos.Line == s.buf[(s.i-s.n+3)%3].pos.Line && pos.Char == s.buf[(s.i-s.n+3)%3].pos.Char
+
+//@ func (*bufScanner).Unscan
+//@   props C04 C07 C01
+//@   safety C04
+//@   modifies s.*
+//@   requires s != nil && 0 <= s.i && s.i < 3 && 0 <= s.n && s.n < 3
+//@   ensures s.n == old(s.n) + 1 && s.i == old(s.i) && s.s == old(s.s)
+//@   ensures forall(k, 0, 3, s.buf[k].tok == old(s.buf[k].tok) && s.buf[k].lit == old(s.buf[k].lit) && s.buf[k].pos.Line == old(s.buf[k].pos.Line) && s.buf[k].pos.Char == old(s.buf[k].pos.Char))
+
+// scanFunc: replay from the ring, or scan one new token into the next slot.
+//@ func (*bufScanner).scanFunc
+//@   props C04 C07 C01
+//@   safety C04
+//@   inline
+//@   fnparam scan modifies reader.*, Lib#rscur, Lib#content
+//@   requires s != nil && 0 <= s.i && s.i < 3 && 0 <= s.n && s.n <= 3
+//@   ensures 0 <= s.i && s.i < 3 && 0 <= s.n && s.n <= 2 && s.s == old(s.s)
+//@   ensures old(s.n) > 0 ==> s.n == old(s.n) - 1 && s.i == old(s.i)
+//@   ensures old(s.n) > 0 ==> tok == old(s.buf[(s.i-(s.n-1)+3)%3].tok) && lit == old(s.buf[(s.i-(s.n-1)+3)%3].lit) && pos.Line == old(s.buf[(s.i-(s.n-1)+3)%3].pos.Line) && pos.Char == old(s.buf[(s.i-(s.n-1)+3)%3].pos.Char)
+//@   ensures old(s.n) > 0 ==> forall(k, 0, 3, s.buf[k].tok == old(s.buf[k].tok) && s.buf[k].lit == old(s.buf[k].lit) && s.buf[k].pos.Line == old(s.buf[k].pos.Line) && s.buf[k].pos.Char == old(s.buf[k].pos.Char))
+//@   ensures old(s.n) == 0 ==> s.n == 0 && s.i == (old(s.i)+1)%3 && s.buf[s.i].tok == tok && s.buf[s.i].lit == lit && s.buf[s.i].pos.Line == pos.Line && s.buf[s.i].pos.Char == pos.Char
+//@   ensures old(s.n) == 0 ==> tok == dynres(scan, 0) && lit == dynres(scan, 2) && pos.Line == dynres(scan, 1).Line && pos.Char == dynres(scan, 1).Char
+//@   ensures old(s.n) == 0 ==> forall(k, 0, 3, k != s.i ==> s.buf[k].tok == old(s.buf[k].tok) && s.buf[k].lit == old(s.buf[k].lit) && s.buf[k].pos.Line == old(s.buf[k].pos.Line) && s.buf[k].pos.Char == old(s.buf[k].pos.Char))
+
+// value -> (token kind, literal) table of bound parameters
+//@ func (Identifier).TokenType
+//@   props C07
+//@   ensures result == IDENT
+//@ func (StringValue).TokenType
+//@   props C07
+//@   ensures result == STRING
+//@ func (RegexValue).TokenType
+//@   props C07
+//@   ensures result == REGEX
+//@ func (NumberValue).TokenType
+//@   props C07
+//@   ensures result == NUMBER
+//@ func (IntegerValue).TokenType
+//@   props C07
+//@   ensures result == INTEGER
+//@ func (BooleanValue).TokenType
+//@   props C07
+//@   ensures v ==> result == TRUE
+//@   ensures !v ==> result == FALSE
+//@ func (DurationValue).TokenType
+//@   props C07
+//@   ensures result == DURATIONVAL
+//@ func (ErrorValue).TokenType
+//@   props C07
+//@   ensures result == BOUNDPARAM
+//@ func (Identifier).Value
+//@   props C07
+//@   ensures result == string(v)
+//@ func (StringValue).Value
+//@   props C07
+//@   ensures result == string(v)
+//@ func (RegexValue).Value
+//@   props C07
+//@   ensures result == string(v)
+//@ func (DurationValue).Value
+//@   props C07
+//@   ensures result == string(v)
+
+// Parser.scan: substitution happens here, as a function of the raw token only.
+//@ func (*Parser).scan
+//@   props C07 C04
+//@   safety C04
+//@   inline
+//@   fnparam fn modifies bufScanner.*, reader.*, Lib#rscur, Lib#content
+//@   requires p != nil
+//@   ensures pos.Line == dynres(fn, 1).Line && pos.Char == dynres(fn, 1).Char
+//@   ensures dynres(fn, 0) != BOUNDPARAM ==> tok == dynres(fn, 0) && lit == dynres(fn, 2)
+//@   ensures p.params == old(p.params) && p.s == old(p.s)
+
+// bound values are never nil interfaces: SetParams stores BindValue results only
+//@ typeinv Parser : mapvalsnonnil(self.params)
+
+//@ func BindValue
+//@   props C07 C04
+//@   safety C04
+//@   ensures result != nil
+
+//@ func bindObjectValue
+//@   props C07 C04
+//@   safety C04
+//@   ensures result != nil
+
+//@ func (*Parser).SetParams
+//@   props C07 C04
+//@   safety C04
+//@   requires p != nil
+//@   ensures mapvalsnonnil(p.params)
+//@   loop 1 invariant mapvalsnonnil(p.params) && p.params != nil
+
+// thin wrappers are inlined at call sites
+//@ func (*bufScanner).Scan
+//@   props C04
+//@   inline
+//@ func (*bufScanner).ScanRegex
+//@   props C04
+//@   inline
+//@ func (*Parser).Unscan
+//@   props C04
+//@   inline
+
+// Parser.Scan / ScanRegex: one token is delivered: from the ring (depth-1) or scanned (depth stays 0)
+//@ func (*Parser).Scan
+//@   props C04 C07
+//@   safety C04
+//@   requires p != nil && p.s != nil && 0 <= p.s.i && p.s.i < 3 && 0 <= p.s.n && p.s.n <= 3 && p.s.s != nil && p.s.s.r != nil && 0 <= p.s.s.r.i && p.s.s.r.i < 3 && 0 <= p.s.s.r.n && p.s.s.r.n <= 3
+//@   requires forallint(j, 0 <= j && j < rslen(p.s.s.r) ==> rsin(p.s.s.r, j) != 0)
+//@   ensures p.s == old(p.s) && 0 <= p.s.i && p.s.i < 3 && 0 <= p.s.n && p.s.n <= 2 && p.s.s == old(p.s.s) && p.s.s.r == old(p.s.s.r) && 0 <= p.s.s.r.i && p.s.s.r.i < 3 && 0 <= p.s.s.r.n && p.s.s.r.n <= 3
+//@   ensures old(p.s.n) > 0 ==> p.s.n == old(p.s.n) - 1
+//@   ensures old(p.s.n) == 0 ==> p.s.n == 0
+
+//@ func (*Parser).ScanRegex
+//@   props C04 C07
+//@   safety C04
+//@   requires p != nil && p.s != nil && 0 <= p.s.i && p.s.i < 3 && 0 <= p.s.n && p.s.n <= 3 && p.s.s != nil && p.s.s.r != nil && 0 <= p.s.s.r.i && p.s.s.r.i < 3 && 0 <= p.s.s.r.n && p.s.s.r.n <= 3
+//@   requires forallint(j, 0 <= j && j < rslen(p.s.s.r) ==> rsin(p.s.s.r, j) != 0)
+//@   ensures p.s == old(p.s) && 0 <= p.s.i && p.s.i < 3 && 0 <= p.s.n && p.s.n <= 2 && p.s.s == old(p.s.s) && p.s.s.r == old(p.s.s.r) && 0 <= p.s.s.r.i && p.s.s.r.i < 3 && 0 <= p.s.s.r.n && p.s.s.r.n <= 3
+//@   ensures old(p.s.n) > 0 ==> p.s.n == old(p.s.n) - 1
+//@   ensures old(p.s.n) == 0 ==> p.s.n == 0
+
+//@ func (*Parser).ScanIgnoreWhitespace
+//@   props C04 C07 C16
+//@   safety C04
+//@   requires p != nil && p.s != nil && 0 <= p.s.i && p.s.i < 3 && 0 <= p.s.n && p.s.n <= 3 && p.s.s != nil && p.s.s.r != nil && 0 <= p.s.s.r.i && p.s.s.r.i < 3 && 0 <= p.s.s.r.n && p.s.s.r.n <= 3
+//@   requires forallint(j, 0 <= j && j < rslen(p.s.s.r) ==> rsin(p.s.s.r, j) != 0)
+//@   ensures p.s == old(p.s) && 0 <= p.s.i && p.s.i < 3 && 0 <= p.s.n && p.s.n <= 2 && p.s.s == old(p.s.s) && p.s.s.r == old(p.s.s.r) && 0 <= p.s.s.r.i && p.s.s.r.i < 3 && 0 <= p.s.s.r.n && p.s.s.r.n <= 3
+//@   ensures old(p.s.n) > 0 ==> p.s.n <= old(p.s.n) - 1
+//@   ensures old(p.s.n) == 0 ==> p.s.n == 0
+//@   ensures tok != WS && tok != COMMENT
+//@   loop 1 invariant p.s == entry(p.s) && p.s.s == entry(p.s.s) && p.s.s.r == entry(p.s.s.r) && 0 <= p.s.s.r.i && p.s.s.r.i < 3 && 0 <= p.s.s.r.n && p.s.s.r.n <= 3 && 0 <= p.s.i && p.s.i < 3 && 0 <= p.s.n && p.s.n <= entry(p.s.n)
+
+//@ func (*Parser).consumeWhitespace
+//@   props C04 C16
+//@   safety C04
+//@   requires p != nil && p.s != nil && 0 <= p.s.i && p.s.i < 3 && 0 <= p.s.n && p.s.n <= 3 && p.s.s != nil && p.s.s.r != nil && 0 <= p.s.s.r.i && p.s.s.r.i < 3 && 0 <= p.s.s.r.n && p.s.s.r.n <= 3
+//@   requires forallint(j, 0 <= j && j < rslen(p.s.s.r) ==> rsin(p.s.s.r, j) != 0)
+//@   ensures p.s == old(p.s) && 0 <= p.s.i && p.s.i < 3 && 0 <= p.s.n && p.s.n <= 3 && p.s.s == old(p.s.s) && p.s.s.r == old(p.s.s.r) && 0 <= p.s.s.r.i && p.s.s.r.i < 3 && 0 <= p.s.s.r.n && p.s.s.r.n <= 3
+//@   ensures p.s.n <= old(p.s.n) || (old(p.s.n) == 0 && p.s.n <= 1)
+
+//@ func (*Parser).parseTokens
+//@   props C04
+//@   safety C04
+//@   requires p != nil && p.s != nil && 0 <= p.s.i && p.s.i < 3 && 0 <= p.s.n && p.s.n <= 3 && p.s.s != nil && p.s.s.r != nil && 0 <= p.s.s.r.i && p.s.s.r.i < 3 && 0 <= p.s.s.r.n && p.s.s.r.n <= 3
+//@   requires forallint(j, 0 <= j && j < rslen(p.s.s.r) ==> rsin(p.s.s.r, j) != 0)
+//@   requires forall(k, 0, len(toks), toks[k] >= 0 && toks[k] <= WRITE)
+//@   ensures p.s == old(p.s) && 0 <= p.s.i && p.s.i < 3 && 0 <= p.s.n && p.s.n <= old(p.s.n) && p.s.s == old(p.s.s) && p.s.s.r == old(p.s.s.r) && 0 <= p.s.s.r.i && p.s.s.r.i < 3 && 0 <= p.s.s.r.n && p.s.s.r.n <= 3
+//@   loop 1 invariant p.s == entry(p.s) && p.s.s == entry(p.s.s) && p.s.s.r == entry(p.s.s.r) && 0 <= p.s.s.r.i && p.s.s.r.i < 3 && 0 <= p.s.s.r.n && p.s.s.r.n <= 3 && 0 <= p.s.i && p.s.i < 3 && 0 <= p.s.n && p.s.n <= entry(p.s.n) && -1 <= rangeindex && rangeindex < len(toks)
+
+// Statement handlers registered in the dispatch tree (parse_tree.go init): every
+// function value of this signature that exists in the package is verified
+// against this contract, and ParseTree.Parse calls them through it.
+// (Handlers added by users of the exported Language variable are assumed to
+// satisfy it as well.)
+//@ func fntype:func(*Parser) (Statement, error)
+//@   props C04
+//@   safety C04
+//@   params p
+//@   requires p != nil && p.s != nil && 0 <= p.s.i && p.s.i < 3 && 0 <= p.s.n && p.s.s != nil && p.s.s.r != nil && 0 <= p.s.s.r.i && p.s.s.r.i < 3 && 0 <= p.s.s.r.n && p.s.s.r.n <= 3 && p.s.n <= 3
+//@   requires p.s.n <= 1
+//@   requires forallint(j, 0 <= j && j < rslen(p.s.s.r) ==> rsin(p.s.s.r, j) != 0)
+//@   ensures p.s == old(p.s) && p.s.s == old(p.s.s) && p.s.s.r == old(p.s.s.r) && p.s != nil && 0 <= p.s.i && p.s.i < 3 && 0 <= p.s.n && p.s.s != nil && p.s.s.r != nil && 0 <= p.s.s.r.i && p.s.s.r.i < 3 && 0 <= p.s.s.r.n && p.s.s.r.n <= 3 && p.s.n <= 3
+//@   ensures result1 == nil ==> result0 != nil
+
+//@ globalinv Language != nil
+
+//@ func (*ParseTree).Parse
+//@   props C04
+//@   safety C04
+//@   requires t != nil && p.s.n <= 1
+//@   requires p != nil && p.s != nil && 0 <= p.s.i && p.s.i < 3 && 0 <= p.s.n && p.s.s != nil && p.s.s.r != nil && 0 <= p.s.s.r.i && p.s.s.r.i < 3 && 0 <= p.s.s.r.n && p.s.s.r.n <= 3 && p.s.n <= 3
+//@   requires forallint(j, 0 <= j && j < rslen(p.s.s.r) ==> rsin(p.s.s.r, j) != 0)
+//@   ensures p.s == old(p.s) && p.s.s == old(p.s.s) && p.s.s.r == old(p.s.s.r) && p.s != nil && 0 <= p.s.i && p.s.i < 3 && 0 <= p.s.n && p.s.s != nil && p.s.s.r != nil && 0 <= p.s.s.r.i && p.s.s.r.i < 3 && 0 <= p.s.s.r.n && p.s.s.r.n <= 3 && p.s.n <= 3
+//@   ensures result1 == nil ==> result0 != nil
+//@   loop * invariant t != nil && p.s.n <= 1 && p.s == entry(p.s) && p.s.s == entry(p.s.s) && p.s.s.r == entry(p.s.s.r) && p.s != nil && 0 <= p.s.i && p.s.i < 3 && 0 <= p.s.n && p.s.s != nil && p.s.s.r != nil && 0 <= p.s.s.r.i && p.s.s.r.i < 3 && 0 <= p.s.s.r.n && p.s.s.r.n <= 3 && p.s.n <= 3
